@@ -89,6 +89,7 @@ type Spec struct {
 	List      []int // announced validators (epoch headers); nil = none
 	SealChain int64
 	Mut       string
+	Root      []byte // state root override (default: derived from number and signer)
 }
 
 func sortedAddrs(idx []int) []common.Address {
@@ -111,6 +112,9 @@ func Build(s Spec) *bsctypes.Header {
 		cb = s.Signer
 	}
 	root := sha256.Sum256([]byte(fmt.Sprintf("root/%d/%d", s.Number, s.Signer)))
+	if s.Root != nil {
+		copy(root[:], s.Root)
+	}
 	h := &bsctypes.Header{
 		UncleHash:   emptyUncle[:],
 		Coinbase:    addrs[cb][:],
